@@ -55,6 +55,7 @@ func (p *Program) Normalise(b *Baseline) {
 			n.canonCompare(fd)
 			n.canonLen(fd)
 			n.canonMapLookup(fd)
+			n.canonArrayTable(fd)
 			tags := b.Tags[q]
 			if !b.HasFunc(q) {
 				tags = nil
@@ -83,6 +84,7 @@ type normaliser struct {
 	pure map[*types.Func]int // 0 unknown, 1 pure, 2 impure, 3 in progress
 	base *Baseline
 
+	arraysToo  bool // tableLiteral accepts array tables (canonArrayTable)
 	byValue    map[string]*types.Const // string value -> the one package-level constant that has it
 	byteConsts map[int64]*types.Const  // value -> the one uint8-only integer constant that has it
 }
